@@ -1,5 +1,12 @@
 //! Copia CLI - rsync-style file synchronization.
 
+#[cfg(paiml_copia_verif)]
+#[allow(unused_imports)]
+use copia_simworld::shim::{fs2, std, tokio};
+#[cfg(paiml_copia_verif)]
+#[allow(unused_imports)]
+use copia_simworld::{eprintln, println};
+
 use std::path::PathBuf;
 use std::process::ExitCode;
 
